@@ -132,18 +132,19 @@ def isControlEvent (e : Event) : Bool :=
         | some m => m == b!"leave" || m == b!"ban"
   else false
 where
-  /-- json.Unmarshal(content, &MemberContent{}) must succeed entirely (no fallback here); returns the membership -/
+  /-- json.Unmarshal(exactMembersOnly(content), &MemberContent{}) must succeed entirely (no fallback here); returns the
+      membership.  Member names are exact (`lookupExact`), as in `NewMemberContentFromEvent`. -/
   decodeMemberContentFull (c : Option JVal) : Option Bytes :=
     match c with
     | none => none
     | some .null => some []
     | some (.obj kvs) =>
-      let m := decString (lookupField kvs b!"membership")
-      let other := (decString (lookupField kvs b!"displayname")).err || (decString (lookupField kvs b!"avatar_url")).err
-        || (decString (lookupField kvs b!"reason")).err || (decBool false (lookupField kvs b!"is_direct")).err
-        || (decodeThirdParty (lookupField kvs b!"third_party_invite")).err
-        || (decString (lookupField kvs b!"join_authorised_via_users_server")).err
-        || (decodeMxidMapping (lookupField kvs b!"mxid_mapping")).1.err
+      let m := decString (lookupExact kvs b!"membership")
+      let other := (decString (lookupExact kvs b!"displayname")).err || (decString (lookupExact kvs b!"avatar_url")).err
+        || (decString (lookupExact kvs b!"reason")).err || (decBool false (lookupExact kvs b!"is_direct")).err
+        || (decodeThirdParty (lookupExact kvs b!"third_party_invite")).err
+        || (decString (lookupExact kvs b!"join_authorised_via_users_server")).err
+        || (decodeMxidMapping (lookupExact kvs b!"mxid_mapping")).1.err
       if m.err || other then none else some m.val
     | some _ => none
 
@@ -330,15 +331,16 @@ def stateNeeded (e : Event) : Needed :=
   if e.type == b!"m.room.create" then {}
   else if e.type == b!"m.room.aliases" then { create := true }
   else if e.type == b!"m.room.member" then
-    -- `var content *membershipContent; _ = json.Unmarshal(bytes, &content)`: nil for absent / null content
+    -- `var content *membershipContent; _ = json.Unmarshal(exactMembersOnly(bytes), &content)`: nil for absent / null
+    -- content; the members of an object are matched by their exact names
     match e.content with
     | none => {}
     | some .null => {}
     | some c =>
       let kvs := match c with | .obj k => k | _ => []
-      let m := (decString (lookupField kvs b!"membership")).val
-      let tp := (decodeThirdParty (lookupField kvs b!"third_party_invite")).val
-      let av := (decString (lookupField kvs b!"join_authorised_via_users_server")).val
+      let m := (decString (lookupExact kvs b!"membership")).val
+      let tp := (decodeThirdParty (lookupExact kvs b!"third_party_invite")).val
+      let av := (decString (lookupExact kvs b!"join_authorised_via_users_server")).val
       let base : List Bytes := [e.sender] ++ (match e.stateKey with | some k => [k] | none => [])
       let jr := m == b!"join" || m == b!"knock" || m == b!"invite"
       -- the authorising user is named before the third-party token is looked at (e67b893)
